@@ -226,6 +226,7 @@ def run(tier, seed):
     res.rule = ("perturbed (non-conserving) integer weights on TLC-enumerated DAGs and cyclic digraphs x {plain, ignored edge, error "
                 "scaling 1/2 and 0, start, end} x {int, float x0.5}; epsilon variants; sparsity; node mode paired with the TLC-computed "
                 "expansion; validity by Trace_ErrFlow, optimality by the unit-bump adversary bounded by the observed objective")
+    P.attribute_presolve(res, known)
     return res.finish(known, require_classes=["solved", "solved_node_mode", "solved_with_epsilon", "adversary_optimality_runs"])
 
 
